@@ -32,7 +32,7 @@ kinds! {
     // ---- XSDT / MCFG ----
     XAddEntry, McAddEcam,
     // ---- MADT ----
-    MaLapic, MaIoApic, MaGicc, MaGicd, MaGicMsi, MaGicr, MaGicIts, MaRintc, MaImsic, MaAplic, MaPlic,
+    MaLapic, MaIoApic, MaGicc, MaGicd, MaGicMsi, MaGicr, MaGicIts, MaRintc, MaImsic, MaAplic, MaPlic, MaRawPair,
     GcPerfInt, GcMaintInt, GcSet,
     MsFrameId, MsBase, MsSpi,
     // ---- SRAT ----
